@@ -12,6 +12,10 @@ def site_kind(call):
     if p.startswith(PANIC_FNS):
         macros = [str(m) for m in call.macros if not str(m).startswith("$crate")]
         name = macros[-1] if macros else "panic"
+        # a debug assertion written inside a user macro is still a debug assertion (not a panic named after the macro)
+        dbg = [m for m in macros if m.startswith("debug_assert")]
+        if dbg and not any(m in ("panic", "unreachable", "assert", "assert_eq", "assert_ne", "todo", "unimplemented") for m in macros):
+            name = dbg[0]
         return "panic:" + name
     if p in UNWRAPS:
         return p.rsplit("::", 1)[-1]
